@@ -118,6 +118,9 @@ where
                             }
                             Err((mut event, err)) => {
                                 event.ingest = ProcessorStatus::Failed(err);
+                                // Never prune on behalf of an operation which failed validation,
+                                // the prune arguments were derived from its unverified header.
+                                event.skip_log_prune();
                                 event
                             }
                         })
